@@ -330,6 +330,9 @@ def confirm_replay(ctx, kind, cands):
     return confirmed
 
 
+MAX_CONFIRM = 60      # candidates confirmed per kind; the rest are counted, not re-executed
+
+
 def confirm_all(ctx, cands):
     out = []
     kinds = []
@@ -338,6 +341,10 @@ def confirm_all(ctx, cands):
             kinds.append(c["kind"])
     for k in kinds:
         sub = [c for c in cands if c["kind"] == k]
+        if len(sub) > MAX_CONFIRM and k != "eval":
+            log("%d candidates of kind %s: confirming the first %d" % (len(sub), k, MAX_CONFIRM))
+            ctx.extra["unconfirmed_candidates_" + k] = len(sub) - MAX_CONFIRM
+            sub = sub[:MAX_CONFIRM]
         if k == "eval":
             out += confirm_eval(ctx, sub)
         elif KINDS[k].get("module"):
